@@ -22,16 +22,63 @@ impl<const A: usize, const L: usize> Market<A, L> {
     }
 }
 
+/// one processed instruction as seen by the logging stand-in
+#[derive(Clone, Copy)]
+pub struct Logged {
+    pub asset: usize,
+    pub t: Nanos,
+    pub code: usize,
+    pub id: usize,
+    pub price: Price,
+    pub vol: Vol,
+}
+pub const MLOG_CAP: usize = 8;
+pub static mut MLOG: [Logged; MLOG_CAP] = [Logged { asset: 0, t: 0, code: 0, id: 0, price: 0, vol: 0 }; MLOG_CAP];
+pub static mut MLOG_N: usize = 0;
+pub fn market_log() -> ([Logged; MLOG_CAP], usize) {
+    unsafe { (MLOG, MLOG_N) }
+}
+
+// (generic parameters named as in the crate: Kani compares stub signatures nominally)
+impl<const ASSETS: usize, const LEVELS: usize> Market<ASSETS, LEVELS> {
+    /// Stand-in for `Market::process_event` in step-LOOP harnesses of the multi-asset environment:
+    /// records (asset, market time at the call, kind / id / arguments) in a fixed-size log and adds 1
+    /// to the addressed book's traded-volume counter; touches nothing else.  The real routing of
+    /// `Market::process_event` is decided by the c14_market_op_* harnesses.
+    pub fn verif_log_event(&mut self, event: Event<MarketOrderId>) {
+        let (kind, oid, np, nv) = match event {
+            Event::New { order_id } => (0usize, order_id, None, None),
+            Event::Cancellation { order_id } => (1usize, order_id, None, None),
+            Event::Modify { order_id, new_price, new_vol } => (2usize, order_id, new_price, new_vol),
+        };
+        let code = kind + if np.is_some() { 4 } else { 0 } + if nv.is_some() { 8 } else { 0 };
+        let t = self.get_time();
+        unsafe {
+            let n = MLOG_N;
+            if n < MLOG_CAP {
+                MLOG[n] = Logged { asset: oid.0, t, code, id: oid.1, price: np.unwrap_or(0), vol: nv.unwrap_or(0) };
+            }
+            MLOG_N = n + 1;
+        }
+        self.order_books[oid.0].verif_add_trade_vol(1);
+    }
+}
+
 /// every all-asset query returns each asset's own value, in asset order
 pub fn queries_in_asset_order<const L: usize>(m: &Market<2, L>) -> bool {
+    // (element-wise: `==` on arrays is a memcmp loop the unwind bound would have to cover)
     let b0 = m.verif_book(0);
     let b1 = m.verif_book(1);
-    let mut ok = m.bid_vols() == [b0.bid_vol(), b1.bid_vol()] && m.ask_vols() == [b0.ask_vol(), b1.ask_vol()];
-    ok &= m.bid_best_vols() == [b0.bid_best_vol(), b1.bid_best_vol()] && m.ask_best_vols() == [b0.ask_best_vol(), b1.ask_best_vol()];
-    ok &= m.bid_best_vol_and_orders() == [b0.bid_best_vol_and_orders(), b1.bid_best_vol_and_orders()];
-    ok &= m.ask_best_vol_and_orders() == [b0.ask_best_vol_and_orders(), b1.ask_best_vol_and_orders()];
-    ok &= m.bid_asks() == [b0.bid_ask(), b1.bid_ask()];
-    ok &= m.get_trade_vols() == [b0.get_trade_vol(), b1.get_trade_vol()];
+    let (x, y) = (m.bid_vols(), m.ask_vols());
+    let mut ok = x[0] == b0.bid_vol() && x[1] == b1.bid_vol() && y[0] == b0.ask_vol() && y[1] == b1.ask_vol();
+    let (x, y) = (m.bid_best_vols(), m.ask_best_vols());
+    ok &= x[0] == b0.bid_best_vol() && x[1] == b1.bid_best_vol() && y[0] == b0.ask_best_vol() && y[1] == b1.ask_best_vol();
+    let (x, y) = (m.bid_best_vol_and_orders(), m.ask_best_vol_and_orders());
+    ok &= x[0] == b0.bid_best_vol_and_orders() && x[1] == b1.bid_best_vol_and_orders() && y[0] == b0.ask_best_vol_and_orders() && y[1] == b1.ask_best_vol_and_orders();
+    let x = m.bid_asks();
+    ok &= x[0] == b0.bid_ask() && x[1] == b1.bid_ask();
+    let x = m.get_trade_vols();
+    ok &= x[0] == b0.get_trade_vol() && x[1] == b1.get_trade_vol();
     let (bl, al) = (m.bid_levels(), m.ask_levels());
     let (l0b, l1b, l0a, l1a) = (b0.bid_levels(), b1.bid_levels(), b0.ask_levels(), b1.ask_levels());
     let l2 = m.level_2_data();
@@ -188,7 +235,8 @@ pub fn step_market_admin<const N: usize, const L: usize>(m: usize, cfg: GenCfg) 
     vcheck!(fresh.verif_book(0).verif_tick() == t0 && fresh.verif_book(1).verif_tick() == t1, "MARKET.new_gives_each_asset_its_own_tick_size");
     vcheck!(fresh.verif_book(0).get_time() == t && fresh.verif_book(1).get_time() == t && fresh.get_time() == t, "MARKET.new_shared_clock");
     vcheck!(fresh.verif_book(0).verif_trading() == tr && fresh.verif_book(1).verif_trading() == tr, "MARKET.new_shared_flag");
-    vcheck!(fresh.bid_asks() == [(0, Price::MAX), (0, Price::MAX)] && fresh.verif_book(0).verif_n_orders() == 0, "MARKET.new_books_empty");
+    let ba = fresh.bid_asks();
+    vcheck!(ba[0] == (0, Price::MAX) && ba[1] == (0, Price::MAX) && fresh.verif_book(0).verif_n_orders() == 0 && fresh.verif_book(1).verif_n_orders() == 0, "MARKET.new_books_empty");
 }
 
 vharnesses! {
